@@ -591,6 +591,19 @@ func (g *Gen) typed(kind, propName string, depth int, path []string, taken map[s
 			t.Opts = []string{"ONLY"} // an inline enum without options parses to an unset schema
 		}
 		f.Ref = t
+		if g.chance(1, 5) {
+			// list rules with default filters naming options of the enum, bare or with the prefix
+			f.HasList = true
+			for _, o := range t.Opts {
+				if g.chance(1, 2) {
+					continue
+				}
+				if !strings.HasPrefix(o, effPfx) && g.chance(1, 2) {
+					o = effPfx + o
+				}
+				f.ListFilters = append(f.ListFilters, o)
+			}
+		}
 	}
 	if len(path) > 0 && g.chance(1, 2) {
 		*more = append(*more, target{pkg: g.pkgName, schema: strings.Join(sub, "."), kind: kind, local: true})
